@@ -1,27 +1,45 @@
 //! scratch probes (not registered)
-use super::shape_common::*;
 use super::*;
+use crate::message::{CreateObject, Message, MessageOps, Sync, CallFunction};
+use bytes::BytesMut;
 
-const VEC2: u8 = ValueKind::Vec2 as u8;
-
-fn via_question_mark(rd: &mut &[u8]) -> Result<(), DeserializeError> {
-    Deserializer::new(rd, 0).unwrap().deserialize_vec2()?.skip()
+#[kani::proof]
+#[kani::unwind(20)]
+fn s1_sync_roundtrip_via_message() {
+    let serial: u32 = kani::any();
+    let m = Message::Sync(Sync { serial });
+    let out = m.clone().serialize_message().unwrap();
+    let back = Message::deserialize_message(out);
+    assert!(back == Ok(m));
 }
 
 #[kani::proof]
-#[kani::unwind(4)]
-fn o1_question_mark() {
-    let e = [VEC2, NONE];
-    let mut rd: &[u8] = &e;
-    assert!(via_question_mark(&mut rd).is_ok() && rd.is_empty());
+#[kani::unwind(20)]
+fn s2_create_object_typed_roundtrip() {
+    let serial: u32 = kani::any();
+    let u: [u8; 16] = kani::any();
+    let m = CreateObject { serial, uuid: ObjectUuid(Uuid::from_bytes(u)) };
+    let out = m.serialize_message().unwrap();
+    let n = out.len();
+    assert!(n >= 22 && n <= 26 && out[0] as usize == n && out[1] == 0 && out[4] == 3);
+    let back = CreateObject::deserialize_message(out);
+    assert!(back == Ok(m));
 }
 
 #[kani::proof]
-#[kani::unwind(10)]
-fn o2_skip_vec2() {
+#[kani::unwind(20)]
+fn s3_call_function_typed_roundtrip() {
+    let serial: u32 = kani::any();
+    let function: u32 = kani::any();
+    let c: [u8; 16] = kani::any();
     let x: u8 = kani::any();
-    let y: u8 = kani::any();
-    let e = [VEC2, SOME, U8, x, SOME, U8, y, NONE];
-    let (r, c) = run_skip(&e, 0);
-    assert!(r.is_ok() && c == 8);
+    let m = CallFunction { serial, service_cookie: ServiceCookie(Uuid::from_bytes(c)), function, value: SerializedValue::serialize(x).unwrap() };
+    let out = m.clone().serialize_message().unwrap();
+    let n = out.len();
+    assert!(out[0] as usize == n && out[4] == 10);
+    let back = CallFunction::deserialize_message(out);
+    match back {
+        Ok(b) => assert!(b.serial == serial && b.function == function && b.service_cookie == m.service_cookie && b.value.len() == 2 && b.value[1] == x),
+        Err(_) => panic!("round trip failed"),
+    }
 }
